@@ -6,7 +6,7 @@
 (* the same predicates are evaluated by the trace specification and the stages are compared.     *)
 (* Every rule of every behaviour table is exercised with its condition true and false, and every *)
 (* pair of conditions (K = 2).                                                                  *)
-EXTENDS Bridge, Json
+EXTENDS BridgeP, Json
 CONSTANTS K, Centres, Around
 Pos == << <<1,1>>, <<1,2>>, <<1,3>>, <<2,1>>, <<2,3>>, <<3,1>>, <<3,2>>, <<3,3>> >>     \* <<row, column>> of the 8 neighbours
 GridOf(ch, S, f) == [r \in 1..3 |-> [c \in 1..3 |->
